@@ -149,13 +149,15 @@ fn main() {
         }
         // a stand-in for chronyd at process level: answers every request on a unix datagram socket with a Tracking
         // reply (reference id, leap status and update interval given; reference time = now; small offsets)
-        //   cbharness fakechronyd <socket path> <refid u32> <leap> <seconds to live>
+        //   cbharness fakechronyd <socket path> <refid u32> <leap> <seconds to live> [stratum] [ipv4 word, 0 = unspecified]
         Some("fakechronyd") => {
             drop(emit);
             let sock = std::os::unix::net::UnixDatagram::bind(&args[2]).expect("bind");
             let refid: u32 = args[3].parse().unwrap();
             let leap: u16 = args[4].parse().unwrap();
             let ttl: u64 = args[5].parse().unwrap();
+            let stratum: Option<u16> = args.get(6).map(|s| s.parse().unwrap());
+            let ip4: Option<u32> = args.get(7).map(|s| s.parse::<u32>().unwrap()).filter(|v| *v != 0);
             sock.set_read_timeout(Some(std::time::Duration::from_millis(200))).unwrap();
             let t0 = std::time::Instant::now();
             let mut buf = [0u8; 2048];
@@ -163,7 +165,7 @@ fn main() {
                 if let Ok((n, addr)) = sock.recv_from(&mut buf) {
                     if n < 12 { continue; }
                     let now = std::time::SystemTime::now().duration_since(std::time::UNIX_EPOCH).unwrap().as_nanos() as i64;
-                    let t = wire::Trk { leap, ref_ns: now, off: 0x0200_0000 | 0x000a_0000, disp: 0x0400_0000 | 0x00b0_0000, delay: 0x0600_0000 | 0x00c0_0000, interval: (5u32 << 25) | (1 << 23), refid, ip4: None, stratum: None };
+                    let t = wire::Trk { leap, ref_ns: now, off: 0x0200_0000 | 0x000a_0000, disp: 0x0400_0000 | 0x00b0_0000, delay: 0x0600_0000 | 0x00c0_0000, interval: (5u32 << 25) | (1 << 23), refid, ip4, stratum };
                     let mut b = wire::reply_bytes(&t, 5);
                     b[16..20].copy_from_slice(&buf[8..12]); // echo the sequence number
                     if let Some(p) = addr.as_pathname() { let _ = sock.send_to(&b, p); }
